@@ -241,6 +241,10 @@ func checkAPI(c APICase) error {
 						if !mustGo(d, fr) || len([]rune(t)) < 4 || !hasLetter.MatchString(t) {
 							continue
 						}
+						if fr.Role == frag.RolePageNo && d.PageNo == "alternate" {
+							// without the unreadable page one of the two places may not recur often enough any more
+							continue
+						}
 						if lineContains(got, t) && !lineContains(want, t) {
 							return fmt.Errorf("page %d is unreadable; Pages(%v) under ExcludeHeadersAndFooters now shows the %s %q of page %d, which the intact file does not show for the same pages", c.Damage, rest, fr.Role, fr.T, pn)
 						}
